@@ -23,6 +23,12 @@ def cases(draw, tier="quick"):
     c = draw(E.episode_cases(tier, max_points=15, max_delay=4, leverage=1.5, boundary_extras=True, distinct_actions=True,
                              with_pings=False, rewards=[["simple"]]))
     c["second_episode"] = draw(st.sampled_from([False, True]))      # a second episode on the same environment
+    if draw(st.sampled_from([False, False, True])) and len(c["gaps"]) >= 4:
+        # the episode starts at a later timestep (fold): history is replayed at reset, the first execution follows it
+        g = E.grid_of(c)
+        a = draw(st.integers(1, len(g) - 3))
+        c["fold"] = [g[a], g[-1]]
+        c["actions"] = c["actions"][: len(g) - 1 - a]
     if draw(st.sampled_from([False, False, True])):
         mingap = min(c["gaps"][1:])
         c["pre_env_latency_us"] = draw(st.sampled_from([0, 1, mingap // 2, mingap - 1]))   # an earlier env on the same transmitter
@@ -48,6 +54,8 @@ def run(case):
         res.tag("latent-quote")
     if case.get("second_episode"):
         res.tag("two-episodes-on-one-environment")
+    if case.get("fold"):
+        res.tag("episode-starts-in-a-later-fold")
     if case.get("pre_env_latency_us") is not None and case["pre_env_latency_us"] != case["latency_us"]:
         res.tag("transmitter-previously-used-with-another-latency")
     return res
